@@ -666,6 +666,56 @@ def rule_6(ctx):
                'XLFormula no longer tokenises its text on construction: terms/ranges would be empty')
 
 
+LITERAL_WITNESSES = [
+    # formula text, the operands it must yield: (text, sub-type)
+    ('="a  b"', [('a  b', 'text')]),
+    ('="line1\nline2"&"x\ty"', [('line1\nline2', 'text'), ('x\ty', 'text')]),
+    ('="say ""hi"""', [('say "hi"', 'text')]),
+    ('=" "&"  "', [(' ', 'text'), ('  ', 'text')]),
+    ("='Q1  totals'!$B$2+1", [('Q1  totals!$B$2', 'range'), ('1', 'number')]),
+    ('=IF(A1>=1,"y, z",":x")', [('A1', 'range'), ('1', 'number'), ('y, z', 'text'), (':x', 'text')]),
+    ('=  "k"  ', [('k', 'text')]),
+    ('="x""""y"&""""""', [('x""y', 'text'), ('""', 'text')]),
+]
+
+
+def rule_10(ctx):
+    """Witness formulas through FormulaParser.tokenize (the text the parser hands to the tokenizer, and the tokenizer itself, by
+    constant propagation): every string literal keeps its exact characters, a quoted sheet name its blanks."""
+    pm = ctx.mod('parser')
+    fn = pm.func('FormulaParser.tokenize')
+    consts = _tok_consts(ctx)
+    for text, want in LITERAL_WITNESSES:
+        it = Interp(ctx.a, pm, {'p': Rec(cls='pkg:parser:FormulaParser'), 'f': text}, inline_pkg=True)
+        out = it.run([ast.parse('return p.tokenize(f)').body[0]])
+        if out.end != 'return' or not isinstance(out.value, list):
+            if out.end == 'raise':
+                ctx.bad(fn, f'tokens of the witness {text!r}', f'tokenizing {text!r} raises {out.value!r}')
+                continue
+            raise Unmodelled(f'FormulaParser.tokenize on {text!r} ends in {out.end}')
+        got = [(t.f.get('tvalue'), t.f.get('tsubtype')) for t in out.value
+               if isinstance(t, Rec) and t.f.get('ttype') == consts['TOK_TYPE_OPERAND']]
+        ctx.expect(got == want, fn, f'operands of the witness {text!r}',
+                   f'{text!r} is tokenized into the operands {got!r}, expected {want!r}: string literals keep their exact characters '
+                   '(blanks, tabs, line breaks; a doubled quote stands for one quote), references keep their sheet name')
+        # the value a text operand evaluates to is the token text, character for character
+        from . import corelemma
+        am = ctx.mod('ast_nodes')
+        for t in out.value:
+            if isinstance(t, Rec) and t.f.get('ttype') == consts['TOK_TYPE_OPERAND'] and t.f.get('tsubtype') == consts['TOK_SUBTYPE_TEXT']:
+                mk = Interp(ctx.a, am, {}, inline_pkg=True)
+                node = corelemma.build_node(mk, 'OperandNode', t)
+                ev = Interp(ctx.a, am, {'node': node, 'context': Rec(cls='pkg:ast_nodes:EvalContext', ref='S!A1', sheet='S', refsheet='S')},
+                            inline_pkg=True)
+                res = ev.run([ast.parse('return node.eval(context)').body[0]])
+                val = res.value.f.get('value') if res.end == 'return' and isinstance(res.value, Rec) else f'<{res.end} {res.value!r}>'
+                ctx.expect(val == t.f.get('tvalue') and res.value.f.get('cls', '').endswith(':Text'), am.func('OperandNode.eval'),
+                           f'value of the text constant {t.f.get("tvalue")!r}',
+                           f'the text constant with the characters {t.f.get("tvalue")!r} evaluates to {val!r}: the operand node must hand the '
+                           'token text on unchanged (quotes were already unescaped by the tokenizer)')
+    ctx.floor(len(LITERAL_WITNESSES), 'literal witnesses')
+
+
 RULES = [
     ('C02.1', 'string-literal content is opaque to syntactic decisions', rule_1),
     ('C02.2', 'bounded single-character reads in the tokenizer', rule_2),
@@ -676,4 +726,5 @@ RULES = [
     ('C02.7', 'leading "=", blanks, "@" are removed', rule_7),
     ('C02.8', 'white-space filter decision table (blank vs intersection operator)', rule_8),
     ('C02.9', 'operator tree shape (precedence relation, pop table, operand order, prefix/infix switch; shared with C01)', rule_9),
+    ('C02.10', 'literal text reaches the token stream unchanged (witness formulas)', rule_10),
 ]
